@@ -224,7 +224,10 @@ func c15Explain(stmt string, kind string, tree *c15Node) c15Touched {
 
 	reads, writes := map[string]bool{}, map[string]bool{}
 
-	rows, err = h.Query("EXPLAIN " + stmt)
+	// unbound placeholders: one NULL argument each
+	args := make([]any, strings.Count(stmt, "?"))
+
+	rows, err = h.Query("EXPLAIN "+stmt, args...)
 	if err != nil {
 		res.Err = err.Error()
 	} else {
@@ -299,7 +302,7 @@ func c15Explain(stmt string, kind string, tree *c15Node) c15Touched {
 	sort.Strings(res.Reads)
 	sort.Strings(res.Writes)
 
-	if _, err := h.Exec(stmt); err != nil {
+	if _, err := h.Exec(stmt, args...); err != nil {
 		res.Exec = "err: " + err.Error()
 	} else {
 		res.Exec = "ok"
